@@ -457,6 +457,17 @@ def tcS : Nat → Ctx → Option Env → Stmt → TC SRes
         let r ← tcE n C Γ false false e
         req (subTy C.P r.ty Tx) (.type 8)
         pure { out := some (bind Γ x r.ty true), recs := r.recs }
+    | .infer x e =>
+      -- `infer_variable_type`: the variable gets the type of the initialiser; the term carries that type in the
+      -- declaration table and the checker verifies it (a mismatch, or a `None` initialiser — a partial type —
+      -- leaves the fragment); like an annotated declaration it does not touch the binder
+      match C.decl[x]? with
+      | none => .error (.type 1)
+      | some Tx => do
+        req (lookup x Γ).isNone (.stuck 4)
+        let r ← tcE n C Γ false false e
+        req (!(r.ty == [.none]) && subTy C.P r.ty Tx && subTy C.P Tx r.ty) (.unsupported 7)
+        pure { out := some Γ, recs := r.recs }
     | .setAttr o f e => do
       req (!implicitAttrDef C o f) (.unsupported 6)
       let ro ← tcE n C Γ false false o
